@@ -219,6 +219,9 @@ BedUnconstrained(f) == Len(f) >= 3 /\ (HexLike(f[2]) \/ HexLike(f[3]))
 PhaseTok(p) == IF p = -1 THEN <<DOT>> ELSE <<48 + p>>
 \* tokens the round trip is claimed for: no TAB / LF / CR / double quote
 ValidTok(t) == \A i \in 1..Len(t) : t[i] \notin {TAB, LF, CR, DQ}
+\* tokens with double quotes: the csv layer quotes / unquotes them; their round trip is part of
+\* the property, their byte-level wire form (csv quoting) is not modelled
+ValidTokQ(t) == \A i \in 1..Len(t) : t[i] \notin {TAB, LF, CR}
 ValidNum(t) == IsU64(t) /\ Canon(t) = t
 GffLineOf(dl, line, r) ==
     LET f == Split(line, TAB) IN
